@@ -16,6 +16,7 @@ type PropSpec struct {
 	NotDecided []string
 	// Extra analyses (non-SMT obligations) by name: "frame", "depth", "walk".
 	Analyses []string
+	DepthScope string // name prefix of the functions whose recursion cycles the "depth" analysis reports
 	Technique string
 	LevelText string
 	LevelNote string
@@ -63,13 +64,14 @@ func init() {
 	}
 	registerProp(&PropSpec{
 		ID: "C01", Title: "No input crashes, hangs or over-reads any lexer, parser or AST method",
-		Sel: lexers,
+		Sel: append(append([]Sel{}, lexers...), Sel{Pattern: "js.Parser.*", Levels: "F", OnlyTags: []string{"depth"}}),
+		Analyses: []string{"depth"},
 		NotDecided: []string{
 			"linear progress of css.Parser.Next (monotone cursor, memory safety and state-stack typing are proved; the lexers' and the JSON parser's progress measures are proved)",
-			"nil-safety of the AST printing methods (JS/String/JSON) beyond the zero-annotation sweep",
-			"stack depth of tree-recursive printers (argued from the parser's nesting limits, not proved)",
+			"memory safety (nil, bounds) and termination of the js.Parser functions and of the AST printing methods (JS/String/JSON): for the JS parser only the recursion-depth argument is decided (every call-graph cycle passes through a depth guard; guards recurse only under their increment and limit; no parser function lowers a nesting counter)",
+			"stack depth of the tree-recursive AST methods (Walk, JS, String, JSON, exprToBinding): declared structural recursion over a tree whose depth the parser limits bound (listed as assumptions)",
 		},
-		Technique: "deductive verification: safety contracts (cursor invariant, peek-before-move precondition, progress measure, sticky end) on every lexer/parser function; VCs from go/ssa discharged by z3/cvc5",
+		Technique: "deductive verification: safety contracts (cursor invariant, peek-before-move precondition, progress measure, sticky end) on every lexer/parser function; recursion-depth argument for js.Parse (call-graph cycle check modulo declared depth guards + at-call and counter-monotonicity VCs); VCs from go/ssa discharged by z3/cvc5",
 	})
 	registerProp(&PropSpec{
 		ID: "C02", Title: "Tokens are faithful, ordered, non-empty slices of the input",
